@@ -233,3 +233,10 @@ def h5(ctx: Ctx) -> None:
     from .events import check_identity_comparisons
 
     check_identity_comparisons(ctx, ["PriceLimitRule", "Order", "OrderKind"], floor=8)
+
+
+@rule("C15.R5", "the width of the price range is the configured rate: nothing else changes it", "T10 provenance of every store outside the constructor", floor=1)
+def r5(ctx: Ctx) -> None:
+    from .events import check_configured_params
+
+    check_configured_params(ctx, "PriceLimitRule", {"trigger_change_rate": "triggerChangeRate"})
